@@ -148,7 +148,15 @@ def main():
         p = os.path.join(sd, ev["file"])
         return {"input.suppr": open(p, "rb").read(), "a.c": LIB_A, "b.c": LIB_B} if os.path.exists(p) else {}
     vf.pmap(lambda i: c.validate("RobustTrace.tla", "RobustTrace.cfg", events[i:i + 3000], case_of=case_of), range(0, len(events), 3000), jobs=4)
-    c.cov["evaluations"] = n1 + len(events)
+    # (3) the grammar of odd suppression files of checks/_suppr.py (valueless properties, lists where strings are expected, invalid regular expressions
+    # in every regexp property, name_not_regexp on aliased C functions, garbage insertion ranges ...), judged by SupprTrace!VSupprRun
+    from checks import _suppr
+    sev = _suppr.suppr_application_events(c, "asan")
+    def sev_case(ev):
+        return {"input.suppr": ev.get("text", ""), "tool": ev.get("tool", "")}
+    vf.pmap(lambda i: c.validate("SupprTrace.tla", "SupprTrace.cfg", sev[i:i + 2000], case_of=sev_case), range(0, len(sev), 2000), jobs=4)
+    c.cov["suppr_application_events"] = len(sev)
+    c.cov["evaluations"] = n1 + len(events) + len(sev)
     c.cov["distinct_nontrivial"] = len({e["file"] for e in events}) + n1 // 10
     c.cov["finding_sites"] = sorted({"%s|%s|%s|%s" % (e["input"], e["tool"], e["kind"], e["fn"]) for e in events if e["ret"] != "ok"})
     c.cov["rule"] = ("(1) read_config under ASan on every text of the model's explored INI spaces + composed longer texts (%d Parse events, validated against the transcription); "
